@@ -51,12 +51,14 @@ SpeedFloorMkt(e, n) == LET S == e * e + n * n  r == Isqrt(S) IN 1000 * r + MaxM(
 SpeedOK(g, e, n) == LET f == SpeedFloorMkt(e, n) IN g >= f - 1 /\ g <= f + 2
 
 \* calc: the recorded result of the library's velocity computation
-\*   [some |-> 0/1, hdg4, gsmkt, vrate]
+\*   [some |-> 0/1, hdg4, hneg, gsmkt, vrate]
 CalcDiff(calc, b, o) ==
   LET r == VelRaw(b, o) IN
   IF ~HasDerived(r) THEN (IF calc.some = 0 THEN {} ELSE {"csome"})
   ELSE IF calc.some = 0 THEN {"csome"}
   ELSE (IF HeadingOK(calc.hdg4, East(r), North(r)) THEN {} ELSE {"chdg"})
+       \* in [0, 360) also for whoever looks at the sign of the value: negative zero prints as "-0"
+       \cup (IF calc.hneg = 0 THEN {} ELSE {"chdg_negative"})
        \cup (IF SpeedOK(calc.gsmkt, East(r), North(r)) THEN {} ELSE {"cgs"})
        \cup (IF calc.vrate = VRate(r) THEN {} ELSE {"cvrate"})
 
